@@ -63,6 +63,11 @@ def handle (j : Json) : Json :=
     match fNat? j "lmax", fNat? j "mmax" with
     | some l, some m => jObj [("k", jNats (lmK l m)), ("size", jNat (lmSize l m)), ("spec", jNats (lmSpec l m))]
     | _, _ => jErr "bad-args"
+  | some "linspace" =>
+    match fNat? j "nbin", fRat? j "first", fRat? j "last" with
+    | some nb, some a, some b =>
+      jRats ((List.range (nb - 1)).map fun (i : Nat) => a + ((i : Nat) : Rat) * ((b - a) / ((nb - 2 : Nat) : Rat)))
+    | _, _, _ => jErr "bad-args"
   | some "midpoints" =>
     match fRatList? j "u" with
     | some u => jRats (midpoints u)
